@@ -15,6 +15,7 @@
 
 """A non-blocking TCP connection factory."""
 
+import asyncio
 import datetime
 import functools
 import numbers
@@ -200,6 +201,18 @@ class _Connector:
         for stream in self.streams:
             stream.close()
 
+    def abort(self) -> None:
+        """Give up: cancel the timers, close every attempt still in flight, and
+        the winning stream too if it arrived but was never handed over."""
+        self.clear_timeouts()
+        self.close_streams()
+        if (
+            self.future.done()
+            and not self.future.cancelled()
+            and self.future.exception() is None
+        ):
+            self.future.result()[2].close()
+
 
 class TCPClient:
     """A non-blocking TCP connection factory.
@@ -278,7 +291,13 @@ class TCPClient:
                 source_port=source_port,
             ),
         )
-        af, addr, stream = await connector.start(connect_timeout=timeout)
+        try:
+            af, addr, stream = await connector.start(connect_timeout=timeout)
+        except asyncio.CancelledError:
+            # The caller gave up (task.cancel(), asyncio.wait_for expiry):
+            # nobody will collect a connection any more.
+            connector.abort()
+            raise
         # TODO: For better performance we could cache the (af, addr)
         # information here and re-use it on subsequent connections to
         # the same host. (http://tools.ietf.org/html/rfc6555#section-4.2)
